@@ -50,6 +50,9 @@ RULES = {
            "`exec const N: T ensures N == <value> { e }`; the value is proved from e, not assumed",
     "E6": "derive(PartialOrd, Ord) kept; the lexicographic OrdSpecImpl/PartialOrdSpecImpl is generated from the extracted "
           "field / variant declaration order (so reordering the declaration changes the spec the way it changes the code)",
+    "E9": "enum text tables: FromStr::from_str emitted verbatim as an inherent fn; Display::fmt must have the shape "
+          "`match self { V => \"lit\", .. }.fmt(f)`, its arms are read (the `.fmt(f)` call is dropped) and one obligation "
+          "`from_str(\"lit\") == Ok(V)` is generated per arm",
     "E8": "monomorphisation: a generic parameter (`mono T=i128`) or `Self` (`selftype i128`) is replaced textually by the "
           "concrete type named in the directive; the generic bound list is dropped",
     "E16": "destructuring assignment `(a, b) = e;` -> `let t = e; a = t.0; b = t.1;` (Rust's own desugaring; Verus lacks it)",
@@ -479,7 +482,9 @@ def parse_template(path):
     while i < len(lines):
         ln = lines[i]
         s = ln.strip()
-        if s.startswith("//@include "):
+        if s.startswith("//@include_assumed "):
+            nodes.append(("include_assumed", i + 1, s[len("//@include_assumed "):].strip()))
+        elif s.startswith("//@include "):
             nodes.append(("include", i + 1, s[len("//@include "):].strip()))
         elif s.startswith("//@item "):
             d = FnDirective("item", s[len("//@item "):].strip(), i + 1)
@@ -492,6 +497,8 @@ def parse_template(path):
             else:
                 i -= 1
             nodes.append(("item", d))
+        elif s.startswith("//@roundtrip "):
+            nodes.append(("roundtrip", i + 1, s[len("//@roundtrip "):].strip()))
         elif s.startswith("//@fn ") or s.startswith("//@assume ") or s.startswith("//@trusted "):
             kind = s[3:].split()[0]
             d = FnDirective(kind, s[3 + len(kind):].strip(), i + 1)
@@ -852,6 +859,94 @@ def emit_item(em, d):
         em.emit(ord_text, origin + " (E6 generated from the declaration order)")
 
 
+def emit_roundtrip(em, target):
+    """E9: `//@roundtrip <file> :: <Enum>` - enum text round trip, generated mechanically from the repository:
+    the FromStr::from_str body is emitted verbatim as an inherent fn; for every arm `Variant => "lit"` of the Display impl
+    (of the shape `match self { .. }.fmt(f)`) one obligation `from_str("lit") == Ok(Variant)` is generated."""
+    path, spec = parse_target(target)
+    enum = spec[-1].strip()
+    src, masked = load(path)
+    disp = None
+    for hdr in ("impl fmt::Display for " + enum, "impl core::fmt::Display for " + enum, "impl Display for " + enum):
+        try:
+            _, _, disp = locate(path, [hdr, "fn fmt"])
+            break
+        except ExtractError:
+            continue
+    if disp is None:
+        raise ExtractError("E9: Display impl of %s not found" % enum)
+    body = src[disp.open + 1:disp.end]
+    mbody = mask_source(body)
+    mm = re.match(r"\s*match\s+self\s*\{(.*)\}\s*\.fmt\(f\)\s*$", mbody, re.S)
+    if not mm:
+        raise ExtractError("E9: Display::fmt of %s is not `match self { .. }.fmt(f)`" % enum)
+    inner = body[mm.start(1):mm.end(1)]
+    arms = []
+    for part in split_top_commas(inner):
+        am = re.match(r"(?:Self|%s)::([A-Za-z_][A-Za-z0-9_]*)\s*=>\s*\"((?:[^\"\\]|\\.)*)\"$" % re.escape(enum), part.strip())
+        if not am:
+            raise ExtractError("E9: unsupported Display arm %r of %s" % (part, enum))
+        arms.append((am.group(1), am.group(2)))
+    fs = None
+    for hdr in ("impl FromStr for " + enum, "impl core::str::FromStr for " + enum):
+        try:
+            _, _, fs = locate(path, [hdr, "fn from_str"])
+            fs_hdr = hdr
+            break
+        except ExtractError:
+            continue
+    if fs is None:
+        raise ExtractError("E9: FromStr impl of %s not found" % enum)
+    # the associated error type
+    _, _, impl_it = locate(path, [fs_hdr])
+    impl_text = src[impl_it.open:impl_it.end]
+    em_ = re.search(r"type\s+Err\s*=\s*([A-Za-z_][A-Za-z0-9_:]*)\s*;", impl_text)
+    if not em_:
+        raise ExtractError("E9: type Err of %s not found" % enum)
+    err_ty = em_.group(1)
+    fbody = src[fs.open:fs.end + 1]
+    lits = sorted(set(re.findall(r"\"((?:[^\"\\]|\\.)*)\"", "\n".join(l for l in fbody.split("\n") if "with_message" not in l)) + [a[1] for a in arms]))
+    origin = "%s:%d" % (path, lineno(src, fs.start))
+    reveals = " ".join('reveal_strlit("%s");' % l for l in lits)
+    # contract of from_str, generated from its own arms and CHECKED by Verus against the verbatim body
+    fm = re.match(r"\s*\{\s*match\s+s\s*\{(.*)\}\s*\}\s*$", mask_source(fbody), re.S)
+    if not fm:
+        raise ExtractError("E9: from_str of %s is not a single `match s { .. }`" % enum)
+    finner = fbody[fm.start(1):fm.end(1)]
+    ens = []
+    all_l = []
+    for part in split_top_commas(finner):
+        part = part.strip()
+        am = re.match(r"((?:\"(?:[^\"\\]|\\.)*\"\s*\|?\s*)+)=>\s*Ok\((?:Self|%s)::([A-Za-z_][A-Za-z0-9_]*)\)$" % re.escape(enum), part, re.S)
+        if am:
+            for l in re.findall(r"\"((?:[^\"\\]|\\.)*)\"", am.group(1)):
+                ens.append('s == "%s" ==> r is Ok && r->Ok_0 == %s::%s' % (l, enum, am.group(2)))
+                all_l.append(l)
+        elif part.startswith("_"):
+            continue
+        else:
+            raise ExtractError("E9: unsupported from_str arm %r of %s" % (part, enum))
+    ens.append("!(" + " || ".join('s == "%s"' % l for l in all_l) + ") ==> r is Err")
+    em.emit("impl %s {" % enum, origin)
+    em.emit("pub fn from_str(s: &str) -> (r: Result<Self, %s>)\n    ensures\n        %s," % (err_ty, ",\n        ".join(ens)), origin)
+    body_line0 = lineno(src, fs.open)
+    fb = fbody.replace("Self::Err", err_ty)
+    fb = "{\n    proof { " + reveals + " }" + fb[1:]
+    for k, ln in enumerate(fb.split("\n")):
+        em.lines.append((ln, "%s:~%d" % (path, body_line0 + k)))
+    em.emit("}", origin)
+    em.fns.append({"name": "from_str", "target": "%s :: %s :: from_str" % (path, fs_hdr), "kind": "fn", "src": origin,
+                   "gen_from": 0, "gen_to": 0, "clauses": 0, "src_lines": [lineno(src, fs.start), lineno(src, fs.end)]})
+    dorigin = "%s:%d" % (path, lineno(src, disp.start))
+    for (variant, lit) in arms:
+        name = "rt_%s_%s" % (enum, variant)
+        em.emit("pub fn %s() -> (r: Result<%s, %s>)\n    ensures r is Ok, r->Ok_0 == %s::%s,\n{\n    proof { %s }\n    %s::from_str(\"%s\")\n}" % (
+            name, enum, err_ty, enum, variant, reveals, enum, lit), dorigin + " (E9: Display arm %s => %r)" % (variant, lit))
+        em.fns.append({"name": name, "target": "%s :: Display/FromStr round trip %s::%s (%r)" % (path, enum, variant, lit), "kind": "fn", "src": dorigin,
+                       "gen_from": 0, "gen_to": 0, "clauses": 1, "src_lines": [lineno(src, disp.start), lineno(src, disp.end)]})
+    em.rules.add("E9")
+
+
 INT_TYPES = {"i8", "i16", "i32", "i64", "i128", "isize", "u8", "u16", "u32", "u64", "u128", "usize"}
 
 
@@ -937,10 +1032,21 @@ def generate(unit, out_path=None):
                 em.lines.append((node[2], "%s:%d" % (os.path.relpath(path, VERIF), node[1])))
             elif node[0] == "include":
                 walk(os.path.join(VERIF, node[2]), depth + 1)
+            elif node[0] == "include_assumed":
+                # spec fns are kept; every proof fn (lemma) becomes external_body: assumed here, proved where the file is
+                # included normally (recorded in trusted list)
+                ipath = os.path.join(VERIF, node[2])
+                for k, ln in enumerate(open(ipath, encoding="utf-8").read().split("\n")):
+                    if re.match(r"^\s*(pub\s+)?(broadcast\s+)?proof\s+fn\s", ln):
+                        em.lines.append(("#[verifier::external_body]", "%s:%d" % (node[2], k + 1)))
+                    em.lines.append((ln, "%s:%d" % (node[2], k + 1)))
+                em.trusted.append({"fn": "lemmas of " + node[2], "how": "assumed in this unit (include_assumed); proved in the unit that includes the file normally"})
             elif node[0] == "fn":
                 emit_fn(em, node[1], path)
             elif node[0] == "item":
                 emit_item(em, node[1])
+            elif node[0] == "roundtrip":
+                emit_roundtrip(em, node[2])
 
     walk(tmpl)
     text = "\n".join(l for (l, _) in em.lines) + "\n"
